@@ -379,6 +379,10 @@ class Interp:
     def __init__(self, worktable, device: str, check_limits=False, tol_per_record=Fraction(1, 200)):
         self.device = device
         self.racks = {d["name"]: Rack(d) for d in worktable}
+        self.by_site = {}
+        for d in worktable:
+            if d.get("grid_site"):
+                self.by_site[(d["grid_site"][0], d["grid_site"][1] - 1)] = self.racks[d["name"]]
         self.tips = []  # FIFO of (volume, amounts dict or None)
         self.check_limits = check_limits
         self.tol = tol_per_record
@@ -489,7 +493,25 @@ class Interp:
             return ("R", src.name, sidx, dst.name, targets, vol)
         if t == "script":
             self.tips.clear()
-            return ("script", rec.f["name"])
+            f = rec.f
+            if f["name"] == "Wash":
+                return ("script", "Wash")
+            rack = self.by_site.get((f["grid"], f["site"]))
+            if rack is None:
+                raise ReplayError(f"no labware at grid {f['grid']}, site {f['site']} (zero-based)")
+            vis_rows = rack.vrows if rack.trough else rack.rows
+            if (f["sel_rows"], f["sel_cols"]) != (vis_rows, rack.cols):
+                raise ReplayError(f"selection is {f['sel_rows']}x{f['sel_cols']}, labware {rack.name} is {vis_rows}x{rack.cols}")
+            eff = script_effect(rec)
+            out = []
+            for (r, c), vol in sorted(eff.items()):
+                idx = (0, c) if rack.trough else (r, c)
+                if f["name"] == "Aspirate":
+                    self._take(rack, idx, vol)
+                else:
+                    self._put(rack, idx, vol, None)
+                out.append((idx, r, vol))
+            return ("script", f["name"], rack.name, out)
         raise ReplayError(f"cannot execute record type {t}")
 
     def run(self, records):
